@@ -8,7 +8,7 @@ import Uquic.Model.Crypto.UInitial
 
 open Uquic.Oracle Uquic.Model.Packet Uquic.Model.Bytes Uquic.Spec.PktMon
 open Uquic.Model.KeyPhase (KA Env Pkt Res)
-open Uquic.Model.Prim (InitialKeys initialKeys trafficKeys gcmSeal gcmOpen aesHPMask retryIntegrityTag)
+open Uquic.Model.Prim (InitialKeys initialKeys trafficKeys gcmSeal gcmOpen aesHPMask retryIntegrityTag chachaHPMask chachaHPKey)
 
 abbrev Fail := String × String × String
 
@@ -35,6 +35,10 @@ structure St where
   lk : InitialKeys × InitialKeys := initialKeys 1 [1, 2, 3, 4, 5, 6, 7, 8]
   /-- RFC-derived 1-RTT generation-0 keys per sending endpoint, for TLS_AES_128_GCM_SHA256 only -/
   sk : Option (InitialKeys × InitialKeys) := some (trafficKeys 1 (harnessSecret 0), trafficKeys 1 (harnessSecret 1))
+  /-- cipher suite index of the 1-RTT keys (0 AES-128-GCM, 1 AES-256-GCM, 2 ChaCha20-Poly1305) -/
+  suite : Nat := 0
+  /-- RFC-derived ChaCha20 header protection keys per sending endpoint (suite 2 only) -/
+  chp : Option (Bytes × Bytes) := none
   /-- ghost: largest packet number the IMPLEMENTATION reported as opened, per endpoint opener -/
   gHighL : List Int := [0, 0]
   gHighS : List Int := [0, 0]
@@ -56,6 +60,27 @@ def implBytes (impl key : String) : Option Bytes := (implField impl key).bind of
 def hx (b : Bytes) : String := if b.isEmpty then "-" else toHex b
 def maskFn (mask : Bytes) : Bytes → Nat → UInt8 := fun _ i => mask.getD i 0
 def lookup (l : List (Nat × Rec)) (id : Nat) : Option Rec := (l.find? (·.1 == id)).map (·.2)
+
+/-- the header-protection mask bits a protected packet shows: low bits of the first byte and the packet
+    number bytes, as differences between the protected packet and the plain header -/
+def appliedMask (long : Bool) (pnLen : Nat) (hdr pkt : Bytes) : Bytes :=
+  let off := hdr.length - pnLen
+  ((pkt.headD 0 ^^^ hdr.headD 0) &&& (if long then 0x0f else 0x1f)) ::
+    (List.range pnLen).map fun i => pkt.getD (off + i) 0 ^^^ hdr.getD (off + i) 0
+def expectedMask (long : Bool) (pnLen : Nat) (m : Bytes) : Bytes :=
+  (m.headD 0 &&& (if long then 0x0f else 0x1f)) :: (List.range pnLen).map fun i => m.getD (1 + i) 0
+
+/-- RFC 9001 §5.4.1: the mask is a function of the header protection key and the SAMPLE of this packet
+    only — judged on the bytes of the protected packet itself (whatever a protector did before) -/
+def maskMons (long : Bool) (pnLen : Nat) (hdr pkt : Bytes) (ref : Option Bytes) (hook : Option Bytes) : List Fail :=
+  if pkt.length < hdr.length - pnLen + 20 then [] else
+  let got := appliedMask long pnLen hdr pkt
+  match ref, hook with
+  | some m, _ => if got ≠ expectedMask long pnLen m then
+      [("hp_mask_applied_rfc", "-", s!"packet shows mask bits {toHex got}; RFC 9001 §5.4.3/§5.4.4 mask of its sample is {toHex m} (bits {toHex (expectedMask long pnLen m)})")] else []
+  | none, some m => if got ≠ expectedMask long pnLen m then
+      [("hp_mask_stateless", "-", s!"packet shows mask bits {toHex got}; the same protector answered {toHex m} for the same sample")] else []
+  | none, none => []
 
 /-- monitors of a seal op, on the implementation's output only -/
 def sealMons (long : Bool) (pnLen : Nat) (pn : Int) (hdr payload pkt : Bytes) : List Fail :=
@@ -117,8 +142,9 @@ def step (s : St) (op impl : String) : St × StepOut :=
   | "sinit" =>
     let ver : Nat := if arg 2 == 2 then 2 else 1
     let suite := (arg 1).toNat % 3
-    ({ s with ua := [{}, {}], gHighS := [0, 0], skey := s!"S{suite}:{ver}",
-              sk := if suite == 0 then some (trafficKeys ver (harnessSecret 0), trafficKeys ver (harnessSecret 1)) else none },
+    ({ s with ua := [{}, {}], gHighS := [0, 0], skey := s!"S{suite}:{ver}", suite := suite,
+              sk := if suite == 0 then some (trafficKeys ver (harnessSecret 0), trafficKeys ver (harnessSecret 1)) else none,
+              chp := if suite == 2 then some (chachaHPKey ver (harnessSecret 0), chachaHPKey ver (harnessSecret 1)) else none },
       mk "ok" ["sinit", s!"sinit:suite{suite}", s!"sinit:v{ver}"])
   | "lseal" | "sseal" =>
     let long := w.headD "" == "lseal"
@@ -127,6 +153,9 @@ def step (s : St) (op impl : String) : St × StepOut :=
     let pn := if long then arg 8 else arg 5
     let payload := (ofHex (if long then sarg 9 else sarg 6)).getD []
     if pnLen < 1 || pnLen > 4 then (s, mk "skip") else
+    -- "no probe": the mask-reading hook is not called (it runs the protector once more); never for the
+    -- AES-256 suite, where the hook's answer is the only mask the model has
+    let np := (if long then arg 11 else arg 9) % 2 == 1 && (long || s.suite != 1)
     -- witnesses from the implementation: header bytes, AEAD output, mask
     match implBytes impl "hdr=", implBytes impl "ct=" with
     | some hdr, some implCt =>
@@ -139,13 +168,21 @@ def step (s : St) (op impl : String) : St × StepOut :=
       let ct := match keys with
         | some ks => gcmSeal ks.key (nonce ks.iv pn.toNat) hdr payload
         | none => implCt
-      let maskOf (raw : Bytes) : Bytes := match keys with
-        | some ks => if raw.length ≥ hdr.length - pnLen + 20 then aesHPMask ks.hp (sample raw (hdr.length - pnLen)) else []
-        | none => implMask
-      let mask := maskOf (hdr ++ ct)
+      let chachaKey : Option Bytes := if long then none else s.chp.map (fun p => if dir == 0 then p.1 else p.2)
+      let refMaskOf (raw : Bytes) : Option Bytes :=
+        if raw.length < hdr.length - pnLen + 20 then none else
+        match keys, chachaKey with
+        | some ks, _ => some (aesHPMask ks.hp (sample raw (hdr.length - pnLen)))
+        | none, some k => some (chachaHPMask k (sample raw (hdr.length - pnLen)))
+        | none, none => none
+      let refMask := refMaskOf (hdr ++ ct)
+      let mask := match refMask with
+        | some m => m
+        | none => if keys.isSome || chachaKey.isSome then [] else implMask
       let rfcFails : List Fail :=
         (if ct ≠ implCt then [("aead_matches_rfc", "-", s!"pn={pn}: sealed {hx implCt}, RFC key/iv/nonce give {hx ct}")] else []) ++
-        (if mask ≠ implMask then [("hp_mask_rfc", "-", s!"mask {hx implMask}, RFC hp key gives {hx mask}")] else [])
+        (if !np && mask ≠ implMask then [("hp_mask_rfc", "-", s!"mask {hx implMask}, RFC hp key gives {hx mask}")] else []) ++
+        maskMons long pnLen hdr ((implBytes impl "pkt=").getD []) refMask (if np || implMask.isEmpty then none else some implMask)
       let k : Keys := { aead := { enc := fun _ _ _ => ct, dec := fun _ _ _ => none }, iv := zeroIV, hp := maskFn mask, long := long }
       let key := (if long then s.lkey else s.skey) ++ s!":{dir}"
       -- the 1-RTT sealer counts the packet (Seal is called before the header protection can panic)
@@ -163,7 +200,7 @@ def step (s : St) (op impl : String) : St × StepOut :=
         let s := { s with sawReserved := s.sawReserved || !reservedOK long (hdr.headD 0) }
         let s := { s with pk := (id, rec_) :: s.pk.filter (·.1 != id),
                           table := (key, nonce zeroIV pn.toNat, hdr, ct, payload) :: s.table }
-        (s, mk s!"hdr={hx hdr} ct={hx ct} mask={hx mask} pkt={hx pkt}"
+        (s, mk s!"hdr={hx hdr} ct={hx ct} mask={if np then "-" else hx mask} pkt={hx pkt}"
               [if long then "lseal" else "sseal", s!"seal:pnlen{pnLen}",
                if pnLen + payload.length == 4 then "seal:min-sample" else "seal:roomy"]
               (sealMons long pnLen pn hdr payload implPkt ++ rfcFails))
@@ -230,13 +267,14 @@ def step (s : St) (op impl : String) : St × StepOut :=
         -- the opener of endpoint `ep` holds the RFC-derived keys of the direction towards it
         let ks := if ep == 0 then s.lk.2 else s.lk.1
         let implMask := (implBytes impl "mask=").getD []
+        let np := (arg 4) % 2 == 1
         let mask := if data.length ≥ off + 20 then aesHPMask ks.hp (sample data off) else []
-        let fails := fails ++ (if data.length ≥ off + 20 && mask ≠ implMask then
+        let fails := fails ++ (if !np && data.length ≥ off + 20 && mask ≠ implMask then
           [("hp_mask_rfc", "-", s!"mask {hx implMask}, RFC hp key gives {hx mask}")] else [])
         -- real AES-128-GCM with the RFC-derived key and IV (independent implementation, Uquic/Model/Crypto/Prim.lean)
         let k : Keys := { aead := { enc := fun _ _ _ => [], dec := fun n a c => gcmOpen ks.key n a c },
                           iv := ks.iv, hp := maskFn mask, long := true }
-        let pre := s!"off={off} plen={plen} mask={if data.length ≥ off + 20 then hx mask else "-"} "
+        let pre := s!"off={off} plen={plen} mask={if data.length ≥ off + 20 && !np then hx mask else "-"} "
         match unprotectCore k data off (s.lHighest.getD ep 0) with
         | .error .tooSmall => (s, mk (pre ++ "E:small") ["lopen:small"] fails)
         | .error _ => (s, mk (pre ++ "E:decrypt") ["lopen:decrypt"] fails)
@@ -259,12 +297,14 @@ def step (s : St) (op impl : String) : St × StepOut :=
       let ep := if mut_ == "own" then r.dir else 1 - r.dir
       let key := s.skey ++ s!":{1 - ep}"
       let implMask := (implBytes impl "mask=").getD []
-      let mask := match s.sk with
-        | some p => if data.length ≥ off + 20 then aesHPMask (if ep == 0 then p.2 else p.1).hp (sample data off) else []
-        | none => implMask
-      let fails := fails ++ (if data.length ≥ off + 20 && mask ≠ implMask then
+      let np := (arg 5) % 2 == 1 && s.suite != 1
+      let mask := match s.sk, s.chp with
+        | some p, _ => if data.length ≥ off + 20 then aesHPMask (if ep == 0 then p.2 else p.1).hp (sample data off) else []
+        | none, some p => if data.length ≥ off + 20 then chachaHPMask (if ep == 0 then p.2 else p.1) (sample data off) else []
+        | none, none => implMask
+      let fails := fails ++ (if !np && data.length ≥ off + 20 && mask ≠ implMask then
         [("hp_mask_rfc", "-", s!"1-RTT mask {hx implMask}, RFC hp key gives {hx mask}")] else [])
-      let pre := s!"mask={if data.length ≥ off + 20 then hx mask else "-"} "
+      let pre := s!"mask={if data.length ≥ off + 20 && !np then hx mask else "-"} "
       -- header removal and packet number decoding (the AEAD is consulted through the key-phase model below)
       let k0 : Keys := { aead := { enc := fun _ _ _ => [], dec := fun _ _ _ => some [] }, iv := zeroIV, hp := maskFn mask, long := false }
       let a := s.ua.getD ep {}
